@@ -1,2 +1,28 @@
-From Coq Require Import List ZArith.
-From Gosk Require Import Base.Bytes Model.Asm.
+(** C15 - symbol names are arbitrary (model level).
+    Names reach the bytes only through exact-string lookups in the symbol table.  Under any
+    renaming that is injective on the names in use, the renamed table answers the renamed name
+    exactly as the original table answers the original name (names that are prefixes of one
+    another or differ in case are simply different strings), and therefore every branch and data
+    ocode produces the same bytes. *)
+From Coq Require Import List ZArith String Bool.
+From Gosk Require Import Base.Bytes Model.Ast Model.Eval Model.Asm Lemmas.RenameLemmas.
+Import ListNotations.
+Local Open Scope Z_scope.
+
+Theorem C15_lookup_rename : forall (f : string -> string) (st : symtab) l,
+  (forall k, In k (map fst st) -> f k = f l -> k = l) ->
+  lookup (f l) (rename_sym f st) = lookup l st.
+Proof. intros. apply lookup_rename. assumption. Qed.
+Print Assumptions C15_lookup_rename.
+
+Theorem C15_ocode_rename : forall E m st dol len f o,
+  (forall l k, In k (map fst st) -> f k = f l -> k = l) ->
+  match o with OInstr _ _ => False | _ => True end ->
+  gen_ocode E m (rename_sym f st) dol len (rename_ocode f o) = gen_ocode E m st dol len o.
+Proof. exact gen_rename. Qed.
+Print Assumptions C15_ocode_rename.
+
+(* a, aa, a_ and A stay four different symbols *)
+Example C15_family : let st := [("a", 1); ("aa", 2); ("a_", 3); ("A", 4)]%string in
+  (lookup "a" st, lookup "aa" st, lookup "a_" st, lookup "A" st)%string = (Some 1, Some 2, Some 3, Some 4).
+Proof. reflexivity. Qed.
